@@ -117,7 +117,7 @@ def run(ctx):
                 'a case = one rebin or one convolved file; non-trivial = filter and grid overlap')
     ctx.assume('oracle: exact rational integration of the piecewise-linear response on the float inputs; midpoints formed in float64 as the statement\'s midpoints',
                'tolerance 1e-9 relative + 1e-12 of sum|R| (trapezium sums in float64)', 'strictly monotone grids (duplicate frequencies outside the quantifier)')
-    ctx.require_events('Filter.rebin:post', 'Filter.normalize:post', 'file:checked', 'flat-spectrum', 'filter:read-from-text')
+    ctx.require_events('Filter.rebin:post', 'Filter.normalize:post', 'file:checked', 'flat-spectrum', 'filter:read-from-text', 'rebin:same-filter-again')
     ctx.require_regimes('filter:ascending-nu', 'filter:descending-nu', 'grid:ascending-nu', 'grid:descending-nu', 'grid:coarser', 'grid:finer',
                         'overlap:partial-lo', 'overlap:partial-hi', 'overlap:contains', 'overlap:contained', 'edges:coincide', 'pkg:v1', 'pkg:v2', 'pkg:mixed-grids')
     d = ctx.newdir('c06')
@@ -176,6 +176,13 @@ def run(ctx):
         ctx.regime('grid:finer' if inside > len(fw) else 'grid:coarser')
         try:
             f.rebin(g.copy() * u.Hz)
+            if it % 3 == 0:
+                # the same Filter object re-binned again onto other grids (same length, then different): no state may carry over
+                g2 = g * (1 + 0.013 * np.arange(len(g)) / len(g))
+                f.rebin(g2.copy() * u.Hz)
+                f.rebin(g[::-1].copy() * u.Hz)
+                f.rebin(g.copy() * u.Hz)
+                ctx.event('rebin:same-filter-again')
         except Exception as exc:
             ctx.violation('rebin-raised', 'Filter.rebin raised: %r' % (exc,), {'filter_wav': fw, 'grid_nu': g, 'kind': kind})
         ctx.case(('rebin', it, ctx.shard), nontrivial=kind != 'disjoint',
